@@ -265,6 +265,27 @@ def run(ctx):
                         texts[rec["id"]] = text
                         k += 1
                         ctx.evaluations += 1
+    # directed: a body line of section A that reads exactly like the HEADER of another section of the file (column 0, nothing
+    # else) - of a selected track B, of a required section - with A before / after B.  Inside an open section such a line is an
+    # ordinary (unparsable) body line; B is built from its own section whatever A contains (round 12, seeded/C13l: a
+    # restricted parse that locates the sections it needs with lines.index("[Tag]"))
+    k = 0
+    for a_h, b_h, c_h in (("EasySingle", "ExpertSingle", "HardDrums"), ("ExpertDrums", "EasyDrums", "MediumKeyboard")):
+        for fake in (b_h, c_h, "Song", "SyncTrack", "Events", a_h):
+            for pos in (0, 1, 3):
+                a_raw = ["  10 = N 0 0", "  20 = N 1 0", "  30 = N 2 0"]
+                a_raw[pos:pos] = [f"[{fake}]"]
+                b_raw = ["  768 = N 0 0", "  960 = N 4 0", "  960 = S 2 100", "  1152 = N 1 0"]
+                c_raw = ["  5 = N 3 0", "  50 = E solo", "  700 = N 2 30"]
+                for order in ([a_h, b_h, c_h], [b_h, a_h, c_h]):
+                    for want in (None, [b_h], [b_h, c_h], [a_h, b_h]):
+                        raw = {a_h: a_raw, b_h: b_raw, c_h: c_raw}
+                        ref = {a_h: ["  400 = N 3 0", "  500 = E x"], b_h: b_raw, c_h: c_raw}
+                        rec, text = record_from_texts(f"hdr{k}", build_raw(order, raw), build_raw(order, ref), order, {a_h}, want, forms[k % 3])
+                        recs.append(rec)
+                        texts[rec["id"]] = text
+                        k += 1
+                        ctx.evaluations += 1
     by_id = {x["id"]: x for x in recs}
     for rid, p, clause in ctx.validate(recs):
         rec = by_id[rid]
